@@ -124,7 +124,7 @@ func checkC07(c *Ctx, r *Report, tier string) {
 				r.Bad("C07.R2", fnName(f), "prune-guard", c.Pos(cl.Pos()), "pruneNeighbors on the insert path is not guarded by edgesCount(level) > budget for the same vertex, level and budget")
 				return
 			}
-			ok2, why := budgetShape(f, K, L, fMmax, fMmax0)
+			ok2, why := budgetShapeAny(f, K, L, fMmax, fMmax0)
 			r.Check(ok2, "C07.R2", fnName(f), "prune-guard", c.Pos(cl.Pos()), "guarded by edgesCount(l) > budget; "+why)
 		})
 	}
@@ -205,6 +205,57 @@ func sameValueOrCall(a, b ssa.Value) bool {
 	return false
 }
 
+// budgetShapeAny: the budget is chosen per level either inline (φ) or by a module-local helper applied to the level.
+func budgetShapeAny(f *ssa.Function, K, L ssa.Value, fMmax, fMmax0 *types.Var) (bool, string) {
+	if cl, ok := K.(*ssa.Call); ok {
+		if g := cl.Call.StaticCallee(); g != nil && modLocal(g) {
+			pi := -1
+			for k, a := range cl.Call.Args {
+				if a == L {
+					pi = k
+				}
+			}
+			if pi < 0 {
+				return false, "the budget helper does not receive the level"
+			}
+			lp := ssa.Value(g.Params[pi])
+			seenM, seenM0 := false, false
+			for _, rt := range returnsOf(g) {
+				v := rt.Results[0]
+				if _, isPhi := v.(*ssa.Phi); isPhi {
+					if ok, why := budgetShape(g, v, lp, fMmax, fMmax0); !ok {
+						return false, why
+					}
+					seenM, seenM0 = true, true
+					continue
+				}
+				fld := fieldOfValue(v)
+				onZero := false
+				for _, ifi := range allIfs(g) {
+					if b, ok := ifi.Cond.(*ssa.BinOp); ok && (b.Op == token.EQL || b.Op == token.NEQ) && b.X == lp {
+						if n, ok := constInt(b.Y); ok && n == 0 && guardedBy(rt.Block(), ifi, b.Op == token.EQL) {
+							onZero = true
+						}
+					}
+				}
+				switch {
+				case fld == fMmax0 && onZero:
+					seenM0 = true
+				case fld == fMmax && !onZero:
+					seenM = true
+				default:
+					return false, "budget helper returns " + v.String() + " on the wrong side of the level test"
+				}
+			}
+			if seenM && seenM0 {
+				return true, "budget = " + g.Name() + "(level): mMax0 when level == 0, mMax otherwise"
+			}
+			return false, "budget helper does not distinguish level 0 from the upper levels"
+		}
+	}
+	return budgetShape(f, K, L, fMmax, fMmax0)
+}
+
 // budgetShape: K is φ(load mMax0 on the l==0 side, load mMax otherwise)
 func budgetShape(f *ssa.Function, K, L ssa.Value, fMmax, fMmax0 *types.Var) (bool, string) {
 	ph, ok := K.(*ssa.Phi)
@@ -253,8 +304,11 @@ func budgetShape(f *ssa.Function, K, L ssa.Value, fMmax, fMmax0 *types.Var) (boo
 func checkC10(c *Ctx, r *Report, tier string) {
 	r.Rule("C10.R1", "the routing function is pure: no stores, no package-level reads, only pure callees (binary.LittleEndian/BigEndian.Uint64)", 1)
 	r.Rule("C10.R2", "the routing function's result is a remainder by its modulus parameter; its only panic-capable operations are remainders by that parameter", 1)
-	r.Rule("C10.R3", "one routing point: the only non-loop index into Dataset.partitions is route(id parameter, Meta().GetPartitionCount()); every single write obtains its partition from that function with the id it then operates on; the batch grouping buckets each item under route(item id) and forwards the bucket with that partition's id", 9)
+	r.Rule("C10.R3", "one routing point: the only non-loop index into Dataset.partitions is route(id parameter, Meta().GetPartitionCount()); every single write obtains its partition from that function with the id it then operates on; the batch grouping buckets each item under route(item id) and forwards the bucket with that partition's id", 6)
 	r.Rule("C10.R4", "the modulus cannot drift: Dataset.partitions / Dataset.meta are stored only in the constructor, len(partitions) is allocated from the partition count, nothing outside generated code stores pb.Dataset.PartitionCount", 3)
+	for _, k := range []string{"partitions-index", "batch-bucket", "batch-forward-partition-id", "proxy-request-id", "|partition."} {
+		r.Need("C10.R3", k, "every write path (single, proxied, batch grouping, batch forwarding) must be seen going through the routing point")
+	}
 	dsT := c.Named("storage", "Dataset")
 	fParts := c.Field("storage", "Dataset", "partitions")
 	fMeta := c.Field("storage", "Dataset", "meta")
